@@ -27,18 +27,17 @@ Proof.
     assert (Hm : multi (b :: b2 :: bs) = true) by reflexivity.
     revert Hwf Hdom Hm. generalize (b :: b2 :: bs). clear b b2 bs. intros bs Hwf Hdom Hm.
     unfold dom in Hdom. rewrite Hm in Hdom. cbn [andb] in Hdom.
-    apply andb_true_iff in Hdom as [Hdom Hd3]. apply andb_true_iff in Hdom as [_ Hd2].
+    apply andb_true_iff in Hdom as [_ Hd2].
     unfold M_multi. destruct Hax as [-> | ->].
     + (* axis 0 *)
-      cbn [Z.eqb] in *. rewrite andb_true_l in Hd2, Hd3.
+      cbn [Z.eqb] in *. rewrite andb_true_l in Hd2.
       apply negb_true_iff in Hd2. rewrite Hd2.
       rewrite M_axis0_flatten. unfold lines. cbn [Z.eqb]. unfold frame_cells.
       f_equal. apply map_ext_in. intros c Hc.
-      destruct (out_is_bool (c15_table f) (row_kind (frame_kinds bs))) eqn:Eo; [|reflexivity].
-      cbn [andb] in Hd3.
+      destruct (out_is_bool (c15_table f) (row_kind (frame_kinds bs)) f) eqn:Eo; [|reflexivity].
       destruct (is_logical f) eqn:El; [apply store_bool_logical; exact El|].
       assert (Hne : bs <> []) by (intro E; subst bs; discriminate Hm).
-      destruct f; try discriminate El; try discriminate Hd3; cbn in Eo; try discriminate Eo;
+      destruct f; try discriminate El; cbn in Eo; try discriminate Eo;
         (destruct (row_kind (frame_kinds bs)) eqn:Hk; try discriminate Eo);
         (apply store_bool_bool_column; [tauto|]);
         pose proof (bool_frame_cells r bs Hwf Hne Hk) as Hall; rewrite Forall_forall in Hall;
